@@ -294,6 +294,9 @@ func runCheck(id, tier, repo string, seed int, writeBaseline bool) int {
 	groupOK := func(g *obGroup) bool {
 		for _, ob := range g.obs {
 			if ob.Status != "discharged" {
+				if ob.Kind == "cover" && !strings.Contains(ob.Name, "#cover.requires") {
+					continue // an unreachable return / loop body is dead code, not a proof failure (reported as a note)
+				}
 				return false
 			}
 		}
@@ -310,6 +313,15 @@ func runCheck(id, tier, repo string, seed int, writeBaseline bool) int {
 	inBaseline := map[string]bool{}
 	for _, n := range baseline.Discharged[id] {
 		inBaseline[n] = true
+	}
+	for _, ob := range all {
+		if ob.Kind == "cover" && ob.Status == "failed" {
+			if strings.Contains(ob.Name, "#cover.requires") {
+				fmt.Fprintf(os.Stderr, "engine error: contradictory precondition (vacuous contract): %s\n", ob.Name)
+				return 3
+			}
+			notes = append(notes, "unreachable path (dead code or infeasible under the precondition): "+ob.Name+" at "+ob.Pos)
+		}
 	}
 	var violations []string
 	var knownLines []string
